@@ -97,6 +97,22 @@ Theorem C06_slice_stream_every_call : forall ro alpha fast std_parse fuel s1 s2,
 Proof. intros ro alpha fast std_parse fuel. exact (proj1 (cross_values ro alpha fast std_parse fuel)). Qed.
 Print Assumptions C06_slice_stream_every_call.
 
+(* ... and a stream that interleaves Interrupted results anywhere among those
+   bytes (strip removes them) still reads like the slice: the interrupts are
+   invisible (C06_interrupts_invisible), the larger step budget the longer
+   event list gets is irrelevant (C03_fuel_irrelevant), and the bytes read
+   alike (C06_slice_stream_agree). *)
+Theorem C06_slice_stream_interrupts_agree : forall ro alpha fast std_parse (s : bytes) (inp : list event),
+  strip inp = bytes_events s ->
+  match from_trait ro alpha fast std_parse SrcSlice (bytes_events s), from_trait ro alpha fast std_parse SrcIo inp with
+  | POk a, POk b => a = b
+  | PErr (XErr (ESyntax c1 _ _)), PErr (XErr (ESyntax c2 _ _)) => c1 = c2
+  | PErr (XErr (EIo a)), PErr (XErr (EIo b)) => a = b
+  | _, _ => False
+  end.
+Proof. exact slice_stream_interrupts_agree. Qed.
+Print Assumptions C06_slice_stream_interrupts_agree.
+
 Example C06_slice_stream_nonvacuous :
   let bad : bytes := [40; 97; 32; 255; 41]%N in       (* "(a \xFF)": not UTF-8 *)
   from_trait default_ro (fun _ => true) true dec_to_f64 SrcSlice (bytes_events bad) =
